@@ -40,6 +40,11 @@ check("C10", "metamorphic property test (layout rewrites at lexer token boundari
       "The AST's PartialEq is not the oracle (it is position-sensitive for some nodes); rewrites are never placed inside string or doc-comment tokens. Corpus-based: covers the constructs the repository's own .er files use.",
       "DESIGN.md §3 C10")
 
+check("C16", "exhaustive enumeration of the opcode tables and magic numbers against each interpreter's dis/importlib, plus generated jump-address tuples",
+      "Every u8 each opcode table maps to a name is judged by the interpreter of every version the table serves (same number in dis.opmap, u8->enum->u8 round-trip, is_jump_op equals hasjrel/hasjabs membership); the magic number of every installed interpreter 3.7-3.12 and every row of CPython's magic history that erg maps must give the right version; jump_abs_addr is compared with the interpreter's jump semantics on generated (version, opcode, index, argument) tuples.",
+      "Names a version's interpreter does not have (Erg-reserved pseudo-instructions, neighbouring-version entries of a shared table) are not judged here; whether the compiler writes only existing instructions is observed by C13/C14. One patch release per minor version.",
+      "DESIGN.md §3 C16")
+
 NOT_APPLICABLE = {}
 
 def main():
